@@ -16,7 +16,7 @@ RULE = ("Cases: nensembles 1..8 x nprocesses 1..8 x noise_mode {single, flip} x 
         "(digest) and pairwise |corr| < 0.5; (b) the output equals the per-IMF mean over members of sift(x +- noise_i, cap) "
         "recomputed in the harness from the traced noise (flip: each member is the mean of its +noise and -noise "
         "decompositions; IMFs present in every member), 1e-12; (c) ensemble_noise=0 equals sift(x, max_imfs=cap), 1e-12; "
-        "(d) complete ensemble: every stage's members carry distinct columns of the parent's noise matrix and the stage's "
+        "(d) complete ensemble: every stage's members carry distinct columns of the parent's noise matrix (uncorrelated in the first stage) and the stage's "
         "IMF equals the recomputed member mean. Non-trivial: nprocesses >= 2, nensembles >= 2 and >= 2 worker pids seen.")
 ASSUMPTIONS = ["classic sift is the trusted building block for the recomputation (decided by C01-C05)",
                "job-to-worker assignments are whatever the OS/pool produces; they are sampled by repetition and reported",
@@ -37,7 +37,7 @@ def digest(a):
     return hashlib.sha1(np.ascontiguousarray(a).tobytes()).hexdigest()
 
 
-def check_distinct(noises, sig, N, level):
+def check_distinct(noises, sig, N, level, correlation=True):
     """noises: list of arrays (one per member)."""
     if level == 0:
         return
@@ -45,7 +45,7 @@ def check_distinct(noises, sig, N, level):
     if len(set(ds)) != len(ds):
         dup = len(ds) - len(set(ds))
         raise Violation(sig + '/members-share-noise', '%d distinct realisations among %d members' % (len(set(ds)), len(ds)))
-    if N >= 256:
+    if N >= 256 and correlation:
         for i in range(len(noises)):
             for j in range(i + 1, len(noises)):
                 c = np.corrcoef(noises[i].ravel(), noises[j].ravel())[0, 1]
@@ -152,7 +152,9 @@ def oracle_complete(case, rec):
         if [r['job_ind'] for r in rs] != list(range(case['nens'])):
             raise Violation('C08/complete_ensemble_sift/member-records', 'stage %d: %r' % (s, [r['job_ind'] for r in rs]))
         noises = [np.asarray(r['noise'], dtype=float).reshape(N, 1) for r in rs]
-        check_distinct(noises, 'C08/complete_ensemble_sift/' + tag, N, case['noise'])
+        # later stages add the *residues* of the noise columns (slow trends with a common offset), which may well be
+        # correlated by chance: independence is asserted on the raw realisations of the first stage, distinctness always
+        check_distinct(noises, 'C08/complete_ensemble_sift/' + tag, N, case['noise'], correlation=(s == 0))
         try:
             members = [member_decomposition(emd, resid[:, None], nz, case['mode'], 1)[:, 0] for nz in noises]
         except emd.support.EMDSiftCovergeError:
